@@ -138,8 +138,13 @@ def plainly_assigned_locals(fn):
             if isinstance(t, dict) and t.get("k") == "Ref":
                 bad.add(t.get("d"))
         elif k == "Call" and n.get("cname") in ("copy_from_mem", "memcpy", "read"):
-            for a in n.get("args", []):
-                a = strip(a)
+            # the destination argument is written: memcpy(dst, ..), copy_from_mem(src, dst[, n]), read(is, dst, n)
+            args = n.get("args", [])
+            di = 0 if n["cname"] == "memcpy" else 1
+            if len(args) > di:
+                a = strip(args[di])
+                if isinstance(a, dict) and a.get("k") == "Un" and a.get("op") == "&":
+                    a = strip(a.get("e"))
                 if isinstance(a, dict) and a.get("k") == "Ref":
                     bad.add(a.get("d"))
     walk(fn.get("body"), v)
